@@ -151,6 +151,11 @@ impl Scenario for Token {
                 v.push(transfer(u, w, t, a));
             }
         }
+        v.push(transfer(ALICE, ALICE, t, 1));
+        v.push(transfer(ALICE, ALICE, t, bal(ALICE)));
+        v.push(transfer_from(DAVE, ALICE, ALICE, t, 1));
+        v.push(transfer_from(DAVE, ALICE, DAVE, t, 1));
+        v.push(send_to(ALICE, ALICE, t, 1, "anything"));
         v.push(transfer(ALICE, HUB, t, 1));
         v.push(unbond(ALICE, t, 1));
         v.push(send_to(BOB, AIRDROP, t, 1, "anything"));
